@@ -28,7 +28,8 @@ import (
 )
 
 var c07Paths = []string{"", ".", "..", "/", "//", "/..", "a", "a/", "/w", "/w/a", "/w/a/b", "/w/a/..", "/w/a/b/c", "/w/f", "/w/f/x", "/tmp", "w", "./w/a", "../w", "/w/../..", "/w//a", "/w/a/",
-	"/w/\x00", "/w/a\\b", "\\", "C:\\", "/w/" + strings.Repeat("n", 300), strings.Repeat("/d", 200), "*", "/w/*", "[", "/w/[", "x*y", "a/b"}
+	"/w/\x00", "/w/a\\b", "\\", "C:\\", "/w/" + strings.Repeat("n", 300), strings.Repeat("/d", 200), "*", "/w/*", "[", "/w/[", "x*y", "a/b",
+	"/x", "x/y", "/l", "/l/d", "/l/f/x", "/l/new/x", "/lf", "/lf/x", "/w/ld/x"}
 var c07Ints = []int64{math.MinInt64, -1, 0, 1, 2, 5, 7, 4096, 1 << 20, math.MaxInt32, -1 << 31}
 var c07Modes = []fs.FileMode{0, 0o644, 0o755, 0o777, 0o7777, fs.ModeDir | 0o755, fs.ModeSymlink | 0o777, 0o200, ^fs.FileMode(0)}
 var c07Flags = []int{0, 1, 2, 3, 0x40, 0x41, 0x42, 0xc1, 0x200, 0x201, 0x242, 0x400, 0x441, 0x1000, -1, 0x7fffffff}
@@ -200,7 +201,12 @@ func (s *c07Sweep) callAll(r *rand.Rand, tg c07Target, vfs avfs.VFS, files []avf
 			s.called[key] = true
 			s.c.Rep.Case(fmt.Sprintf("%s|%s", key, verdict), true)
 			if verdict != "returns" {
-				s.c.Disagree(fmt.Sprintf("%s|%s", key, verdict), fmt.Sprintf("%s %s: %s", call, verdict, detail), map[string]any{"target": tg.name, "last_calls": append([]string{}, *hist...)})
+				known := s.c.Disagree(fmt.Sprintf("%s|%s", key, verdict), fmt.Sprintf("%s %s: %s", call, verdict, detail), map[string]any{"target": tg.name, "last_calls": append([]string{}, *hist...)})
+				if known && verdict == "panics" {
+					// a recorded panic (FromBasePath, a pure function) must not hide the methods that come after it in the
+					// method set: the sweep of this instance goes on
+					break
+				}
 				return false // the instance may hold leaked locks
 			}
 		}
@@ -273,7 +279,40 @@ func c07Instance(r *rand.Rand, which int) (string, avfs.VFS) {
 		buildTree(v, r, treeCfg(fsType), r.IntN(20))
 		return v
 	}
-	switch which % 9 {
+	switch which % 12 {
+	case 9:
+		// a view whose root directory has been removed through the parent: nothing can be found or created below it any
+		// more, but every call still has to return
+		m := mk("MemFS")
+		s, err := m.Sub("/w/a")
+		if err != nil {
+			return "MemFS", m
+		}
+		_ = m.RemoveAll("/w/a")
+		return "MemFS.Sub(removed root)", s
+	case 10:
+		// the same with the root of the view renamed away and replaced by a file
+		m := mk("MemFS")
+		s, err := m.Sub("/w/a")
+		if err != nil {
+			return "MemFS", m
+		}
+		_ = m.Rename("/w/a", "/w/moved")
+		_ = m.WriteFile("/w/a", []byte("x"), 0o644)
+		return "MemFS.Sub(moved root)", s
+	case 11:
+		// a wrapper over a base that holds symbolic links leading out of the base directory
+		m := mk("MemFS")
+		_ = m.MkdirAll("/outside/d", 0o755)
+		_ = m.WriteFile("/outside/f", []byte("x"), 0o644)
+		_ = m.Symlink("/outside", "/base/l")
+		_ = m.Symlink("/outside/f", "/base/lf")
+		_ = m.Symlink("../outside/d", "/base/w/ld")
+		v, err := basepathfs.NewWithErr(m, "/base")
+		if err != nil {
+			return "MemFS", m
+		}
+		return "BasePathFS(MemFS with links out)", v
 	case 0:
 		return "MemFS", mk("MemFS")
 	case 1:
